@@ -51,12 +51,13 @@ MIN_OBS = {'quick': {'evaluations': 33000, 'classes': 600, 'c11.histories': 4500
                      'c11.m2_records_compared': 33000, 'c11.act_probes_compared': 4500,
                      'c11.probes_after_phase_boundary': 11000, 'c11.child_cd_probes': 12000,
                      'c11.env_value_from_program_probes': 700, 'c11.keep_sandbox_crosschecks': 350,
-                     'c11.path_symbol_rel_cd_compared': 1500},
+                     'c11.path_symbol_rel_cd_compared': 1500, 'c11.zero_timeout_m2_compared': 100},
            'thorough': {'evaluations': 300000, 'classes': 1100, 'c11.histories': 40000,
                         'c11.probe_records_compared': 300000, 'c11.m2_records_compared': 300000,
                         'c11.act_probes_compared': 40000, 'c11.probes_after_phase_boundary': 80000,
                         'c11.child_cd_probes': 80000, 'c11.env_value_from_program_probes': 15000,
-                        'c11.keep_sandbox_crosschecks': 3000, 'c11.path_symbol_rel_cd_compared': 30000}}
+                        'c11.keep_sandbox_crosschecks': 3000, 'c11.path_symbol_rel_cd_compared': 30000,
+                        'c11.zero_timeout_m2_compared': 100}}
 KNOWN = {}
 
 PHASES = list(model.PHASES)
@@ -323,8 +324,35 @@ def _seeded_case(rng, n):
             'items': _number(items), 'act': {'ccd': rng.choice([None, None, '/', '..'])}}
 
 
+_ZERO_VALUES = ['0', '1-1', "'0'", '00', '-0']
+_ZERO_VIAS = [('run %', 'run'), ('%', '%'), ('$', '$'), ('env ZV = -stdout-from %', 'env-value'),
+              ('file zf.txt = -stdout-from %', 'file-source')]
+
+
+def _zero_cases():
+    """The boundary value of the timeout: `timeout = 0` is a timeout like any other (it is in force for every later
+    process: each is handed timeout 0 and, returning after 0 s at the earliest, expires), not "no timeout"."""
+    n = 0
+    for set_ph in ['setup', 'before-assert', 'assert', 'cleanup']:
+        # set in [setup], the first later process of a later phase is the action itself
+        later = ['same'] + (['act'] if set_ph == 'setup' else
+                            [p for p in ['assert', 'cleanup'] if PHASES.index(p) > PHASES.index(set_ph)])
+        for where in later:
+            for pre in (None, '45', 'none'):
+                for vi in range(len(_ZERO_VIAS)):
+                    if where == 'act' and vi:
+                        continue
+                    if _ZERO_VIAS[vi][1] == 'file-source' and where == 'same' and set_ph == 'assert':
+                        pass
+                    yield {'kind': 'zero', 'n': n, 'set_phase': set_ph, 'where': where, 'pre': pre,
+                           'value': _ZERO_VALUES[n % len(_ZERO_VALUES)], 'via': vi}
+                    n += 1
+
+
 def cases(tier, seed):
     for c in _core_cases():
+        yield c
+    for c in _zero_cases():
         yield c
     rng = common.rng_for(seed, ID, 'seeded')
     for n in range(N_SEEDED.get(tier, N_SEEDED['quick'])):
@@ -481,7 +509,81 @@ def _sandbox_root(r):
     return roots[0] if roots else None
 
 
+def _run_zero(case, ctx):
+    ses = ctx.get_session()
+    d = ses.new_case_dir({})
+    out_file = os.path.join(d, 'records')
+    set_ph, where = case['set_phase'], case['where']
+    prefix, via = _ZERO_VIAS[case['via']]
+    body = {ph: [] for ph in PHASES}
+    # a process before the change: still the earlier timeout
+    body[set_ph].append('run %% %s %s %s' % (probe.PROBE, out_file, probe.ctrl(id='before', rc=0)))
+    if case['pre'] is not None:
+        body['setup'].insert(0, 'timeout = %s' % case['pre'])
+    body[set_ph].append('timeout = %s' % case['value'])
+    z = '%s %s %s' % (probe.PROBE, out_file, probe.ctrl(id='z', rc=0))
+    if where == 'act':
+        act_line = z
+    else:
+        act_line = '%s %s %s' % (probe.PROBE, out_file, probe.ctrl(id='act', rc=0))
+        body[set_ph if where == 'same' else where].append('%s %s' % (prefix, z))
+    lines = []
+    for ph in PHASES:
+        if body[ph]:
+            lines += ['[%s]' % ph] + body[ph]
+        if ph == 'setup':
+            lines += ['[act]', act_line]
+    text = '\n'.join(lines) + '\n'
+    with open(os.path.join(d, 't.case'), 'w') as f:
+        f.write(text)
+    r = ses.run([os.path.join(d, 't.case')], cwd=d, mode='normal')
+    viol, inconc = [], []
+    short = text.replace(probe.PROBE, 'PROBE').replace(out_file, 'OUT')
+
+    def bad(msg, **detail):
+        detail['case_text'] = short
+        detail['observed'] = r.brief()
+        viol.append({'what': 'C11 timeout boundary: %s' % msg, 'detail': detail})
+
+    evaluations = 0
+    if r.timed_out:
+        inconc.append('watchdog')
+    elif r.exc is not None:
+        bad('exception escaped MainProgram.execute')
+    else:
+        pre_exp = {None: 60, '45': 45, 'none': None}[case['pre']]
+        if set_ph != 'setup' and case['pre'] is None:
+            pre_exp = 60
+        hb, hz = _find_call(r.calls, 'before'), _find_call(r.calls, 'z')
+        # (`env` without -of in [setup] runs the program of the value once per set: up to two records)
+        if len(hb) != 1 or not 1 <= len(hz) <= 2:
+            bad('expected one process before and one after `timeout = %s`, M2 saw %d and %d (outcome %r)'
+                % (case['value'], len(hb), len(hz), r.out[:40]))
+        else:
+            evaluations += 2
+            ctx.count('c11.zero_timeout_m2_compared')
+            if hb[0]['timeout'] != pre_exp:
+                bad('the process before `timeout = %s` was started with timeout=%r, in force there: %r'
+                    % (case['value'], hb[0]['timeout'], pre_exp))
+            if any(h['timeout'] != 0 for h in hz):
+                bad('the process after `timeout = %s` (%s in [%s], set in [%s]) was started with timeout=%r; the '
+                    'timeout in force is 0 seconds' % (case['value'], via, where if where != 'same' else set_ph,
+                                                      set_ph, [h['timeout'] for h in hz]))
+        ident = r.out.split('\n', 1)[0]
+        if (ident, r.rc) not in (('HARD_ERROR', 128), ('PASS', 0)):
+            bad('outcome %r/%r: a process under a timeout of 0 s either expires (HARD_ERROR) or, if it has already '
+                'ended when first waited for, completes (PASS)' % (ident, r.rc))
+        elif ident == 'HARD_ERROR':
+            ctx.count('c11.zero_timeout_expired')
+    ses.clean_tmp()
+    ses.drop(d)
+    return {'classes': [('zero-timeout', set_ph, where, via, 'pre=%s' % case['pre'])], 'viol': viol,
+            'inconclusive': inconc, 'evaluations': evaluations}
+
+
 def run_case(case, ctx):
+    if case['kind'] == 'zero':
+        return _run_zero(case, ctx)
     ses = ctx.get_session()
     d = ses.new_case_dir({})
     out_file = os.path.join(d, 'records')
